@@ -206,6 +206,18 @@ def gen_ops(rng, tier):
         op = ("durop", rng.choice(UNARY), L, ("N",))
         if _ok(op[1], L, ("N",)):
             yield op
+    # years / months exactly cancelled by days: the native length is zero (or one microsecond) while the Duration is not empty —
+    # negation and integer scaling still act component-wise
+    for _ in range(1500 * n):
+        y = rng.choice((1, -1, 2, rng.randint(-20, 20)))
+        mo = rng.choice((0, 1, -1, 12, rng.randint(-30, 30)))
+        if not (y or mo):
+            continue
+        L = D(y=y, mo=mo, d=-(y * 365 + mo * 30), us=rng.choice((0, 0, 0, 1, -1)))
+        k = ("I", rng.choice((0, 1, -1, 2, -3, rng.randint(-50, 50))))
+        for op in (("durop", "neg", L, ("N",)), ("durop", "mul", L, k), ("durop", "mul", k, L), ("durop", "abs", L, ("N",))):
+            if _ok(op[1], op[2], op[3]):
+                yield op
     # add / sub with duration-likes on either side
     for _ in range(25000 * n):
         a, b = _len(rng), _len(rng)
